@@ -53,8 +53,6 @@ def run_c05(h, sch, rng, tier, verdict, counters, stats, samples):
         root = 'Metrics' if i % 2 == 0 else 'Spans'
         opts = dict(compression=i % 2 if i % 4 < 2 else (i // 2) % 2, maxframe=rng.choice([0, 0, 300]), maxdict=rng.choice([0, 0, 200]),
                     flags=rng.choice([0, 1, 4, 5, 7, 2, 3, 6]), descriptor=rng.chance(1, 3), userdata={})
-        if opts['compression'] == 0:
-            opts['flags'] &= ~2
         nrec = 3 + rng.below(6 if tier == 'quick' else 14)
         ops = small_history(sch, root, rng, nrec, 1 + rng.below(3))
         cases.append(dict(id=f'c5-{i}', root=root, opts=opts, ops=ops, mode='cuts'))
@@ -240,8 +238,6 @@ def run_c08(h, sch, rng, tier, verdict, counters, stats, samples):
         opts = dict(compression=rng.below(2), maxframe=rng.choice([1, 7, 64, 200, 500, 3000, 0]),
                     maxdict=rng.choice([1, 16, 64, 200, 500, 3000, 0]), flags=rng.choice([0, 0, 1, 4, 5, 2, 7]),
                     descriptor=False, userdata={})
-        if opts['compression'] == 0:
-            opts['flags'] &= ~2
         ops = small_history(sch, root, rng, 5 + rng.below(30), rng.below(3))
         cases.append(dict(id=f'c8-{i}', root=root, opts=opts, ops=ops))
         stats[f'maxframe_{opts["maxframe"]}'] += 1
@@ -359,8 +355,6 @@ def run_c06(h, sch, rng, tier, verdict, counters, stats, samples):
         root = 'Metrics' if i % 2 == 0 else 'Spans'
         opts = dict(compression=rng.below(2), maxframe=rng.choice([0, 0, 200, 600]), maxdict=rng.choice([0, 0, 300]),
                     flags=rng.choice([0, 0, 1, 4, 5, 2, 6, 7]), descriptor=rng.chance(1, 4), userdata={})
-        if opts['compression'] == 0:
-            opts['flags'] &= ~2
         cases.append(dict(id=f'c6-{i}', root=root, opts=opts, mode='c06', ops=gen_c06(sch, root, rng, 6 + rng.below(30))))
         stats[f'compr_{opts["compression"]}'] += 1
     outs, stderr, rc = h.run_go(cases)
